@@ -22,6 +22,7 @@ import (
 	"go/token"
 	"go/types"
 	"os"
+	"path/filepath"
 	"reflect"
 	"strconv"
 	"strings"
@@ -590,7 +591,7 @@ func (oc *objectCache) processExpr(info *types.Info, pkgPath string, expr ast.Ex
 		case "Struct":
 			s, err := processStructProvider(oc.fset, info, call)
 			if err != nil {
-				return nil, []error{notePosition(exprPos, err)}
+				return nil, []error{atReference(exprPos, err)}
 			}
 			return s, nil
 		case "FieldsOf":
@@ -606,11 +607,24 @@ func (oc *objectCache) processExpr(info *types.Info, pkgPath string, expr ast.Ex
 	if tn := structArgType(info, expr); tn != nil {
 		p, errs := processStructLiteralProvider(oc.fset, tn)
 		if len(errs) > 0 {
-			return nil, notePositionAll(exprPos, errs)
+			return nil, mapErrors(errs, func(err error) error {
+				return atReference(exprPos, err)
+			})
 		}
 		return p, nil
 	}
 	return nil, []error{notePosition(exprPos, errors.New("unknown pattern"))}
+}
+
+// atReference positions err at the expression that led to it. An error that
+// already has a position keeps it in its message if it lies in another
+// package (another directory): a struct type of a dependency is not something
+// the user can act on.
+func atReference(exprPos token.Position, err error) error {
+	if w, ok := err.(*wireErr); ok && filepath.Dir(w.position.Filename) != filepath.Dir(exprPos.Filename) {
+		return &wireErr{error: w, position: exprPos}
+	}
+	return notePosition(exprPos, err)
 }
 
 func (oc *objectCache) processNewSet(info *types.Info, pkgPath string, call *ast.CallExpr, args *InjectorArgs, varName string) (*ProviderSet, []error) {
